@@ -739,4 +739,347 @@ theorem noNothing_run (rc : Bool) (bits : List Bool) (s : Cfg) (h : NoNothing s)
     · exact noNothing_stepLoop rc s h
     · exact noNothing_stepWorker s h
 
+/-! ## 7. The serial order: reads and updates as a legal history of one register
+       (the worker's update lands as a whole at a step boundary of the loop thread) -/
+
+@[simp] theorem sendEvents_lin (s : Cfg) (c : Conn) : (sendEvents s c).lin = s.lin := by
+  unfold sendEvents; split <;> (try split) <;> rfl
+
+@[simp] theorem ctrlWrite_lin (s : Cfg) (w : Conn) (v : Obj) : (ctrlWrite s w v).lin = s.lin ++ [.upd v] := rfl
+
+theorem replay_append (v0 : Obj) (l1 l2 : List LinEv) :
+    replay v0 (l1 ++ l2) = (replay v0 l1).bind (fun v => replay v l2) := by
+  induction l1 generalizing v0 with
+  | nil => simp [replay]
+  | cons e l ih =>
+    cases e with
+    | upd o => simp [replay, ih]
+    | read r =>
+      simp only [List.cons_append, replay]
+      split <;> simp [ih]
+
+theorem replay_upd (v0 v : Obj) (l : List LinEv) (o : Obj) (h : replay v0 l = some v) :
+    replay v0 (l ++ [.upd o]) = some o := by
+  rw [replay_append, h]; simp [replay]
+
+theorem replay_read (v0 v : Obj) (l : List LinEv) (h : replay v0 l = some v) :
+    replay v0 (l ++ [.read v]) = some v := by
+  rw [replay_append, h]; simp [replay]
+
+@[simp] theorem readsOf_append (l1 l2 : List LinEv) : readsOf (l1 ++ l2) = readsOf l1 ++ readsOf l2 := by
+  induction l1 with
+  | nil => rfl
+  | cons e l ih => cases e <;> simp [readsOf, ih]
+
+@[simp] theorem updsOf_append (l1 l2 : List LinEv) : updsOf (l1 ++ l2) = updsOf l1 ++ updsOf l2 := by
+  induction l1 with
+  | nil => rfl
+  | cons e l ih => cases e <;> simp [updsOf, ih]
+
+@[simp] theorem resObjs_append (l1 l2 : List Res) : resObjs (l1 ++ l2) = resObjs l1 ++ resObjs l2 := by
+  induction l1 with
+  | nil => rfl
+  | cons e l ih => cases e <;> simp [resObjs, ih]
+
+/-- The ghost order is a legal register history ending in the current value, and its reads are
+    exactly the values shown by the results so far plus the read in progress. -/
+def LinInv (v0 : Obj) (s : Cfg) : Prop :=
+  replay v0 s.lin = some s.value ∧ readsOf s.lin = resObjs s.results ++ inflight s
+
+theorem linInv_stepWorker (v0 : Obj) (s : Cfg) (h : LinInv v0 s) : LinInv v0 (stepWorker s).1 := by
+  obtain ⟨h1, h2⟩ := h
+  unfold stepWorker
+  split
+  · split
+    · exact ⟨h1, h2⟩
+    · split <;> exact ⟨h1, h2⟩
+  · exact ⟨replay_upd v0 _ _ _ h1, by simpa [readsOf, inflight] using h2⟩
+  all_goals (try split) <;> exact ⟨h1, h2⟩
+
+theorem linInv_stepLoop (sg : Bool) (v0 : Obj) (s : Cfg) (hc : CacheInv s) (hw : s.wpc = .idle)
+    (h : LinInv v0 s) : LinInv v0 (stepLoop ⟨true, sg⟩ s).1 := by
+  obtain ⟨h1, h2⟩ := h
+  obtain ⟨c1, c2⟩ := hc
+  have fresh_of : s.lpc = .hCheck ∨ s.lpc = .hRet → ∀ r, s.cacheV = some r → r = s.value := by
+    intro hl r hr
+    rcases c2 with f | f | f
+    · rcases f with f | f
+      · rw [hr] at f; exact absurd f (by simp)
+      · rw [hr] at f; exact Option.some.inj f
+    · simp [WorkerWillClear, hw] at f
+    · rcases hl with hl | hl <;> simp [LoopWillCheck, hl] at f
+  unfold stepLoop
+  split
+  · -- idle
+    rename_i hpc
+    split
+    · exact ⟨h1, h2⟩
+    · rename_i op rest hl
+      cases op with
+      | write w v =>
+        refine ⟨?_, ?_⟩
+        · show replay v0 (ctrlWrite _ w v).lin = some (ctrlWrite _ w v).value
+          rw [ctrlWrite_lin, ctrlWrite_value]
+          exact replay_upd v0 _ _ _ h1
+        · show readsOf (ctrlWrite _ w v).lin = resObjs (ctrlWrite _ w v).results ++ inflight (ctrlWrite _ w v)
+          rw [ctrlWrite_lin, ctrlWrite_results]
+          simpa [readsOf, inflight, hpc] using h2
+      | _ => simp only [] <;> (try split) <;> (try split) <;> simp_all [LinInv, inflight]
+  · -- hCheck
+    rename_i hpc
+    split
+    · rename_i r hr
+      have e := fresh_of (Or.inl hpc) r hr
+      split
+      · refine ⟨?_, ?_⟩
+        · simp only [ret]; rw [e]; exact replay_read v0 _ _ h1
+        · simp_all [ret, readsOf, resObjs, inflight]
+      · exact ⟨h1, by simp_all [inflight]⟩
+    · exact ⟨h1, by simp_all [inflight]⟩
+  · -- hRet
+    rename_i hpc
+    cases hr : s.cacheV with
+    | none => exact ⟨by simpa [ret, hr] using h1, by simp_all [ret, readsOf, resObjs, inflight]⟩
+    | some r =>
+      have e := fresh_of (Or.inr hpc) r hr
+      refine ⟨?_, ?_⟩
+      · simp only [ret, hr]; rw [e]; exact replay_read v0 _ _ h1
+      · simp_all [ret, readsOf, resObjs, inflight]
+  · -- hRead
+    exact ⟨replay_read v0 _ _ h1, by simp_all [readsOf, inflight]⟩
+  all_goals first
+    | exact ⟨replay_read v0 _ _ h1, by simp_all [ret, readsOf, resObjs, inflight]⟩
+    | ((try split) <;> (try split) <;> simp_all [LinInv, ret, inflight, resObjs, readsOf])
+
+theorem linInv_run (sg : Bool) (v0 : Obj) (bits : List Bool) (s : Cfg) (hc : CacheInv s)
+    (h : LinInv v0 s) (ha : AtomicUpd ⟨true, sg⟩ bits s) : LinInv v0 (run ⟨true, sg⟩ bits s) := by
+  induction bits generalizing s with
+  | nil => exact h
+  | cons b bs ih =>
+    obtain ⟨ha1, ha2⟩ := ha
+    simp only [run]
+    cases b with
+    | true =>
+      exact ih _ (by simpa [step] using cacheInv_stepLoop sg s hc)
+        (by simpa [step] using linInv_stepLoop sg v0 s hc (ha1 rfl) h) ha2
+    | false =>
+      exact ih _ (by simpa [step] using cacheInv_stepWorker s hc)
+        (by simpa [step] using linInv_stepWorker v0 s h) ha2
+
+/-- The updates of the serial order are the worker's accepted updates, in program order. -/
+theorem upd_stepLoop (fix : Variant) (s : Cfg) (hn : NoWrite s.lops) :
+    updsOf (stepLoop fix s).1.lin ++ owedUpd (stepLoop fix s).1 = updsOf s.lin ++ owedUpd s := by
+  unfold stepLoop
+  split
+  · split
+    · rfl
+    · rename_i op rest hl
+      cases op with
+      | write w v => exact absurd rfl (hn (.write w v) (by rw [hl]; exact List.mem_cons_self) w v)
+      | _ => simp only [] <;> (try split) <;> (try split) <;> simp_all [owedUpd]
+  all_goals (try split) <;> (try split) <;> simp_all [owedUpd, ret, updsOf] <;> (try split) <;> simp_all [updsOf]
+
+theorem upd_stepWorker (s : Cfg) :
+    updsOf (stepWorker s).1.lin ++ owedUpd (stepWorker s).1 = updsOf s.lin ++ owedUpd s := by
+  unfold stepWorker
+  split
+  · rename_i hw
+    split
+    · rfl
+    · rename_i u rest hl
+      split <;> simp_all [owedUpd, validObjs]
+  all_goals (try split) <;> simp_all [owedUpd, updsOf]
+
+theorem upd_run (fix : Variant) (bits : List Bool) (s : Cfg) (hn : NoWrite s.lops) :
+    updsOf (run fix bits s).lin ++ owedUpd (run fix bits s) = updsOf s.lin ++ owedUpd s := by
+  induction bits generalizing s with
+  | nil => rfl
+  | cons b bs ih =>
+    simp only [run]
+    rw [ih _ (noWrite_step fix b s hn)]
+    unfold step
+    split
+    · exact upd_stepLoop fix s hn
+    · exact upd_stepWorker s
+
+/-! ## 8. Every read that begins after the worker has finished shows the final value
+       (every schedule, no atomicity assumption) -/
+
+/-- The result shows value object `v` (a value-free representation shows no value at all). -/
+def shows (v : Obj) : Res → Prop
+  | .rep r => r = v
+  | .value r => r = v
+  | .repNV => True
+  | .nothing => False
+
+/-- The worker is finished, the value is `v`, the cache is absent or renders `v`, and every result
+    from position `n` on shows `v`. -/
+def LateInv (v : Obj) (n : Nat) (s : Cfg) : Prop :=
+  s.wpc = .idle ∧ s.wups = [] ∧ s.value = v ∧ NoWrite s.lops ∧
+  (s.cacheV = none ∨ s.cacheV = some v) ∧
+  (∀ r, (s.lpc = .hStore r ∨ s.lpc = .hRecheck r ∨ s.lpc = .hDrop r) → r = v) ∧
+  s.lpc ≠ .hRet ∧ s.lpc ≠ .nRet ∧
+  n ≤ s.results.length ∧ ∀ x ∈ s.results.drop n, shows v x
+
+theorem lateInv_stepWorker (v : Obj) (n : Nat) (s : Cfg) (h : LateInv v n s) :
+    LateInv v n (stepWorker s).1 := by
+  have h0 := h
+  obtain ⟨h1, h2, _⟩ := h
+  unfold stepWorker
+  simp [h1, h2]
+  exact h0
+
+theorem lateInv_stepLoop (v : Obj) (n : Nat) (s : Cfg) (h : LateInv v n s) :
+    LateInv v n (stepLoop repaired s).1 := by
+  obtain ⟨h1, h2, h3, h4, h5, h6, h7, h8, h9, h10⟩ := h
+  unfold stepLoop
+  split
+  · split
+    · exact ⟨h1, h2, h3, h4, h5, h6, h7, h8, h9, h10⟩
+    · rename_i op rest hl
+      have hr : NoWrite rest := fun o ho => h4 o (by rw [hl]; exact List.mem_cons_of_mem _ ho)
+      cases op with
+      | write w x => exact absurd rfl (h4 (.write w x) (by rw [hl]; exact List.mem_cons_self) w x)
+      | _ => simp only [] <;> (try split) <;> (try split) <;> simp_all [LateInv]
+  all_goals (try split) <;> (try split) <;>
+    simp_all [LateInv, ret, repaired, shows, List.drop_append_of_le_length] <;> (try omega) <;> grind
+
+theorem lateInv_run (v : Obj) (n : Nat) (bits : List Bool) (s : Cfg) (h : LateInv v n s) :
+    LateInv v n (run repaired bits s) := by
+  induction bits generalizing s with
+  | nil => exact h
+  | cons b bs ih =>
+    apply ih
+    unfold step
+    split
+    · exact lateInv_stepLoop v n s h
+    · exact lateInv_stepWorker v n s h
+
+theorem results_prefix_stepLoop (fix : Variant) (s : Cfg) :
+    ∃ new, (stepLoop fix s).1.results = s.results ++ new := by
+  have key : (stepLoop fix s).1.results = s.results ∨ ∃ x, (stepLoop fix s).1.results = s.results ++ [x] := by
+    unfold stepLoop
+    split
+    · split
+      · exact Or.inl rfl
+      · rename_i op rest hl
+        cases op <;> simp only [] <;> (try split) <;> (try split) <;> (left; simp; done)
+    all_goals (try split) <;> (try split) <;>
+      first | (left; simp [ret]; done) | (right; exact ⟨_, rfl⟩)
+  rcases key with h | ⟨x, h⟩
+  · exact ⟨[], by simp [h]⟩
+  · exact ⟨[x], h⟩
+
+theorem stepWorker_results (s : Cfg) : (stepWorker s).1.results = s.results := by
+  unfold stepWorker
+  split
+  · split
+    · rfl
+    · split <;> rfl
+  all_goals (try split) <;> rfl
+
+theorem results_prefix_run (fix : Variant) (bits : List Bool) (s : Cfg) :
+    ∃ new, (run fix bits s).results = s.results ++ new := by
+  induction bits generalizing s with
+  | nil => exact ⟨[], by simp [run]⟩
+  | cons b bs ih =>
+    obtain ⟨n2, h2⟩ := ih (step fix b s)
+    simp only [run]
+    cases b with
+    | true =>
+      obtain ⟨n1, h1⟩ := results_prefix_stepLoop fix s
+      exact ⟨n1 ++ n2, by rw [h2]; simp [step, h1]⟩
+    | false => exact ⟨n2, by rw [h2]; simp [step, stepWorker_results]⟩
+
+/-! ## 9. The loop's own mechanisms reach quiescence: `drain` empties the hand-off queue, the
+       timer expiry of `c` disarms its timer -/
+
+theorem run_append (fix : Variant) (a b : List Bool) (s : Cfg) :
+    run fix (a ++ b) s = run fix b (run fix a s) := by
+  induction a generalizing s with
+  | nil => rfl
+  | cons x xs ih => simp [run, ih]
+
+theorem serial_append (fix : Variant) (a b : List Bool) (s : Cfg)
+    (ha : Serial fix a s) (hb : Serial fix b (run fix a s)) : Serial fix (a ++ b) s := by
+  induction a generalizing s with
+  | nil => exact hb
+  | cons x xs ih => exact ⟨ha.1, ih _ ha.2 hb⟩
+
+theorem sendEvents_self_timer (s : Cfg) (c : Conn) : (sendEvents s c).timer c = false := by
+  unfold sendEvents; split <;> (try split) <;> simp
+
+/-- Running the loop thread alone from inside `drain` pops every hand-off and returns to idle. -/
+theorem drain_finishes (fix : Variant) : ∀ (n : Nat) (s : Cfg), s.queue.length = n → s.lpc = .dLoop →
+    ∃ k, (run fix (List.replicate k true) s).lpc = .idle ∧ (run fix (List.replicate k true) s).queue = [] ∧
+      (run fix (List.replicate k true) s).lops = s.lops ∧ (run fix (List.replicate k true) s).wpc = s.wpc ∧
+      Serial fix (List.replicate k true) s := by
+  intro n
+  induction n with
+  | zero =>
+    intro s hq hl
+    have hq' : s.queue = [] := List.eq_nil_of_length_eq_zero hq
+    refine ⟨1, ?_⟩
+    simp [List.replicate, run, step, stepLoop, hl, hq', Serial, AtWrite]
+  | succ n ih =>
+    intro s hq hl
+    cases hqq : s.queue with
+    | nil => rw [hqq] at hq; simp at hq
+    | cons d q =>
+      have hlen : q.length = n := by rw [hqq] at hq; simpa using hq
+      let t := step fix true s
+      have ht : t = step fix true s := rfl
+      have e1 : t.queue = q := by simp [ht, step, stepLoop, hl, hqq]
+      have e2 : t.lpc = .dLoop := by simp [ht, step, stepLoop, hl, hqq]
+      have e3 : t.lops = s.lops := by simp [ht, step, stepLoop, hl, hqq]
+      have e4 : t.wpc = s.wpc := by simp [ht, step, stepLoop, hl, hqq]
+      obtain ⟨k, a1, a2, a3, a4, a5⟩ := ih t (by rw [e1]; exact hlen) e2
+      refine ⟨k + 1, ?_⟩
+      simp only [List.replicate, run]
+      exact ⟨a1, a2, by rw [a3, e3], by rw [a4, e4], ⟨by simp [AtWrite, hl], a5⟩⟩
+
+theorem noWrite_run (fix : Variant) (bits : List Bool) (s : Cfg) (h : NoWrite s.lops) :
+    NoWrite (run fix bits s).lops := by
+  induction bits generalizing s with
+  | nil => exact h
+  | cons b bs ih => exact ih _ (noWrite_step fix b s h)
+
+/-- From an idle loop thread whose next operations are `drain` and the timer expiry of `c`: the
+    loop thread alone completes both; afterwards the hand-off queue is empty and `c`'s timer is not
+    armed.  The steps taken contain no controller write, so they extend any `Serial` schedule. -/
+theorem drain_fire_finishes (fix : Variant) (c : Conn) (s : Cfg) (rest : List LoopOp)
+    (hl : s.lpc = .idle) (ho : s.lops = .drain :: .fire c :: rest) :
+    ∃ ext : List Bool, (∀ b ∈ ext, b = true) ∧ Serial fix ext s ∧
+      (run fix ext s).lpc = .idle ∧ (run fix ext s).lops = rest ∧ (run fix ext s).wpc = s.wpc ∧
+      (run fix ext s).queue = [] ∧ (run fix ext s).timer c = false := by
+  let t1 := step fix true s
+  have ht1 : t1 = step fix true s := rfl
+  have b1 : t1.lpc = .dLoop := by simp [ht1, step, stepLoop, hl, ho]
+  have b2 : t1.lops = .fire c :: rest := by simp [ht1, step, stepLoop, hl, ho]
+  have b3 : t1.wpc = s.wpc := by simp [ht1, step, stepLoop, hl, ho]
+  obtain ⟨k, a1, a2, a3, a4, a5⟩ := drain_finishes fix t1.queue.length t1 rfl b1
+  let t2 := run fix (List.replicate k true) t1
+  have ht2 : t2 = run fix (List.replicate k true) t1 := rfl
+  rw [← ht2] at a1 a2 a3 a4
+  have c3 : t2.lops = .fire c :: rest := by rw [a3, b2]
+  refine ⟨true :: (List.replicate k true ++ [true]), ?_, ?_, ?_⟩
+  · intro b hb
+    simp at hb
+    rcases hb with h | h | h
+    · exact h
+    · exact h.2
+    · exact h
+  · refine ⟨fun _ hw => ?_, ?_⟩
+    · exact absurd hw.2 (by simp [ho, headIsWrite])
+    · refine serial_append fix _ _ t1 a5 ?_
+      rw [← ht2]
+      exact ⟨fun _ hw => absurd hw.2 (by simp [c3, headIsWrite]), trivial⟩
+  · simp only [run]
+    rw [← ht1, run_append, ← ht2]
+    simp only [run]
+    by_cases htm : t2.timer c = true
+    · simp [step, stepLoop, a1, c3, htm, a2, a4, b3, sendEvents_self_timer]
+    · have htm' : t2.timer c = false := by simpa using htm
+      simp [step, stepLoop, a1, c3, htm', a2, a4, b3]
+
 end Hap.Race
